@@ -357,4 +357,26 @@ def sym_call_of(inp):
     raise ValueError("cannot rebuild " + inp)
 
 def replay(path):
-    return flow.standard_replay(path, sym_call_of)
+    """re-run the stored case; a call that prints several cases (pred, detqr, hstep, minmax groups) is judged on the
+    stored input line only, so that the lines of the two known findings do not decide an unrelated replay"""
+    import json
+    obj = json.load(open(path))
+    kind = obj.get("kind")
+    if kind not in ("sym-oracle", "correspondence"):
+        return flow.standard_replay(path, sym_call_of)
+    print(json.dumps(obj, indent=1)[:3000])
+    first = obj if kind == "sym-oracle" else obj["first"]
+    want = first["input"].strip()
+    with core.Scratch() as wd:
+        res = symrun.run_groups([sym_call_of(want)], wd, verbose=True)
+        for r in res:
+            if r["res"]["rc_compile"]:
+                print(r["res"]["compile_out"][-2000:]); return 1
+            keep = [l for l in r["res"]["out"].split("\n") if "|" in l and l.split("|", 1)[0].strip() == want]
+            if keep:
+                r["res"]["out"] = "\n".join(keep) + "\n"
+            print(r["res"]["out"])
+        n, mism, ofail, infra, lines = symrun.compare_with_model(res, None)
+        for l in lines:
+            print("model:", l[2])
+        return 1 if (mism or ofail or infra or n == 0) else 0
